@@ -45,7 +45,7 @@ def gen_body(rng, ci, j, keys, big_n, depth, target):
             sub = gen_body(rng, ci, j * 10 + b, keys, big_n, depth + 1, target)
             blk = {'op': 'txn', 'body': sub}
             if rng.random() < 0.4:
-                blk['raise_at'] = rng.randint(0, len(sub))
+                blk['raise_at'] = rng.randint(0, len(sub)); blk['raise_kind'] = rng.choice(('exc', 'base'))
             body.append(blk)
             continue
         if r < 0.25 and depth == 0:
@@ -97,7 +97,9 @@ def gen_case(seed, tier):
     if kind == 'abort':
         target = rng.choice(('cache', 'cache', 'deque', 'index', 'fanout'))
         return gen_abort_case(rng, seed, target, mfs, big_n, keys)
-    target = rng.choice(('cache', 'cache', 'cache', 'index', 'fanout'))
+    target = rng.choice(('cache', 'cache', 'cache', 'index', 'fanout', 'deque'))
+    if target == 'deque':
+        return gen_deque_case(rng, seed, mfs, big_n)
     nclients = rng.choice((2, 2, 3))
     topo = rng.choice(('shared', 'own', 'procs'))
     settings = {'disk_min_file_size': mfs}
@@ -114,7 +116,7 @@ def gen_case(seed, tier):
                 body = gen_body(rng, ci, j, keys, big_n, 0, target)
                 blk = {'op': 'txn', 'body': body}
                 if rng.random() < 0.35:
-                    blk['raise_at'] = rng.randint(0, len(body))
+                    blk['raise_at'] = rng.randint(0, len(body)); blk['raise_kind'] = rng.choice(('exc', 'base'))
                 if target == 'cache' and rng.random() < 0.6:
                     blk['retry'] = True
                 prog.append(blk)
@@ -137,6 +139,108 @@ def gen_case(seed, tier):
            'clock': {'mode': 'frozen'}, 'timeout': rng.choice((60, 60, 0.05)) if target != 'fanout' else 0.010,
            'shards': rng.choice((2, 3)), 'kind': 'conc', 'step_cap': 200000}
     return {'seed': seed, 'cfg': cfg, 'progs': progs, 'faults': []}
+
+
+def gen_deque_case(rng, seed, mfs, big_n):
+    """2-3 clients on one Deque mixing plain operations and Deque.transact blocks."""
+    def dop(ci, j):
+        name = rng.choice(('append', 'append', 'appendleft', 'dpop', 'dpopleft', 'dpeek'))
+        op = {'op': name}
+        if name.startswith('append'):
+            op['v'] = c05.uniq_value(rng, ci, j, big_n)
+        return op
+    progs = {}
+    for ci in range(rng.choice((2, 2, 3))):
+        prog = []
+        for j in range(rng.randint(2, 5)):
+            if rng.random() < 0.5:
+                body = [dop(ci, j * 10 + b) for b in range(rng.randint(1, 4))]
+                if rng.random() < 0.2:
+                    body.insert(rng.randrange(len(body) + 1), {'op': 'sleep', 'dt': rng.choice((0.001, 0.1, 1.0))})
+                if rng.random() < 0.2:
+                    inner = [dop(ci, j * 100 + b) for b in range(rng.randint(1, 2))]
+                    blk_in = {'op': 'txn', 'body': inner}
+                    if rng.random() < 0.4:
+                        blk_in['raise_at'] = rng.randint(0, len(inner)); blk_in['raise_kind'] = rng.choice(('exc', 'base'))
+                    body.append(blk_in)
+                blk = {'op': 'txn', 'body': body}
+                if rng.random() < 0.35:
+                    blk['raise_at'] = rng.randint(0, len(body)); blk['raise_kind'] = rng.choice(('exc', 'base'))
+                prog.append(blk)
+            else:
+                prog.append(dop(ci, j))
+        progs['c%d' % ci] = prog
+    topo = rng.choice(('shared', 'own', 'procs'))
+    cfg = {'target': 'deque', 'kind': 'conc-deque', 'topology': topo, 'maxlen': rng.choice((None, None, 2, 3)), 'settings': {}, 'mfs': mfs,
+           'sched': rng.choice(({'kind': 'uniform'}, {'kind': 'sticky', 'p': 0.8}, {'kind': 'pct', 'd': 2, 'horizon': 200})),
+           'line_p': rng.choice((0.0, 0.05)) if topo == 'shared' else 0.0, 'dircollide': rng.random() < 0.5,
+           'post_stmt_yield': rng.random() < 0.3, 'yield_clock': False, 'clock': {'mode': 'frozen'}, 'step_cap': 200000}
+    return {'seed': seed, 'cfg': cfg, 'progs': progs, 'faults': []}
+
+
+def run_conc_deque(case):
+    from .c11 import make_dq_apply
+    cfg = case['cfg']
+    maxlen = cfg.get('maxlen')
+    base_apply = make_dq_apply(maxlen)
+    probes = {}
+
+    def dq_apply(state, op, depth=0):
+        if op['op'] == 'txn':
+            return kvmodel._txn(state, op, depth, apply_fn=dq_apply)
+        if op['op'] == 'sleep':
+            return state, ('ok', 'None')
+        return base_apply(state, op)
+
+    def prepare(world, main):
+        main.cache.reset('disk_min_file_size', cfg.get('mfs', 0))
+
+    def inspect(world, main, targets, out):
+        sim = world.sim
+        fresh = world.dc.Deque(directory=main.directory, maxlen=maxlen)
+        op = {'op': 'dlist'}
+        rec = {'task': 'final', 'i': 0, 'op': op, 'inv': sim.stamp()}
+        rec['res'] = run_op(fresh, op)
+        rec['ret'] = sim.stamp()
+        out['history'].append(rec)
+        out['audits'] = [audit(main.directory)]
+        out['checks'] = [check_messages(fresh.cache)]
+        fresh.cache.close()
+
+    out = conc.run_and_inspect(case, inspect, prepare=prepare)
+    violations = out['violations']
+    base = {'digest': out.get('digest'), 'steps': out.get('steps', 0), 'switches': out.get('switches', 0),
+            'fired': out.get('fired', {}), 'virtual_s': out.get('virtual_s', 0.0), 'picks': out.get('picks')}
+    if conc.incident_violations(out, PROPERTY, violations):
+        return dict(base, violations=violations, probes=out.get('probes', {}), nontrivial=True)
+    for name, msg in conc.unexpected_exceptions(out):
+        violations.append({'rule': 'C06/unexpected-exception', 'sig': msg.split(':')[0], 'detail': '%s: %s' % (name, msg)})
+    hist = out['history']
+    for h in hist:
+        h['tolerate'] = False
+        r = h['res']
+        if r and r[0] == 'exc' and r[1] != 'IndexError':
+            violations.append({'rule': 'C06/unexpected-exception', 'sig': r[1], 'detail': '%s %s -> %s' % (h['task'], json.dumps(h['op'])[:120], r)})
+        if r and r[0] == 'ok' and isinstance(r[1], str):
+            if r[1].startswith('commit:'):
+                probes['blocks_committed'] = probes.get('blocks_committed', 0) + 1
+            elif r[1].startswith('abort:'):
+                probes['blocks_aborted'] = probes.get('blocks_aborted', 0) + 1
+    try:
+        ok, info = lin.check(hist, (), dq_apply)
+    except OverflowError:
+        ok, info = True, {}
+    if not ok:
+        violations.append({'rule': 'C06/not-linearizable', 'sig': 'deque-history',
+                           'detail': 'no order with Deque.transact blocks as atomic operations explains the results (maxlen %r); stuck at %s' % (maxlen, info.get('stuck_ops'))})
+    for problems, empties, info2 in out['audits']:
+        if problems:
+            violations.append({'rule': 'C06/audit', 'sig': ','.join(sorted({p[0] for p in problems})), 'detail': str(problems[:4])})
+    pr = dict(out['probes'])
+    for k, v in probes.items():
+        pr[k] = pr.get(k, 0) + v
+    pr['deque_conc_runs'] = 1
+    return dict(base, violations=violations, probes=pr, nontrivial=out['switches'] > 0, outcome={'ops': len(hist)})
 
 
 def gen_abort_case(rng, seed, target, mfs, big_n, keys):
@@ -168,7 +272,7 @@ def gen_abort_case(rng, seed, target, mfs, big_n, keys):
             body.append({'op': 'pull', 'prefix': 'q'})
     blk = {'op': 'txn', 'body': body}
     if rng.random() < 0.8:
-        blk['raise_at'] = rng.randint(0, len(body))
+        blk['raise_at'] = rng.randint(0, len(body)); blk['raise_kind'] = rng.choice(('exc', 'base'))
     cfg = {'target': target, 'settings': {'disk_min_file_size': mfs}, 'kind': 'abort', 'shards': rng.choice((2, 3)),
            'maxlen': rng.choice((None, None, 3))}
     return {'seed': seed, 'cfg': cfg, 'progs': {'c0': pre + [blk]}, 'faults': []}
@@ -328,6 +432,8 @@ def model_apply(state, op):
 def run_case(case):
     if case['cfg'].get('kind') == 'abort':
         return run_abort_case(case)
+    if case['cfg'].get('kind') == 'conc-deque':
+        return run_conc_deque(case)
     probes = {}
     target_kind = case['cfg']['target']
 
